@@ -94,7 +94,7 @@ theorem processDone_ok (cfg : Cfg) (size : C → Nat) (cur : C) (env : Nat → E
     · exact step g rs q rfl rfl rfl (fun p => by simp)
     · split
       · split
-        · have sf := saveExtra_frame cfg g
+        · have sf := saveExtra_frame cfg { g with timeouts := g.timeouts + 1 }
           exact step _ _ _ sf.2.1 sf.2.2.1 sf.2.2.2 (fun p => by rw [sf.1]; simp)
         · simp only [ScanOK]; exact ⟨trivial, trivial, trivial, fun p => by simp⟩
         · cases hc : check cfg size cur (env i) g rs.gu with
